@@ -3,6 +3,7 @@ mod core;
 mod gen_eval;
 mod gen_syn;
 mod jr;
+mod json;
 mod model;
 mod props;
 
